@@ -59,6 +59,8 @@ def run(ctx):
     c_reentry_clean(ctx, push)
     b_pipe_in_order(ctx, proc)
     a_buffer_remainder_raw(ctx, cls)
+    c_reentry_past_prefix(ctx, cls)
+    a_unbuffer_nonempty(ctx, cls)
 
 
 def a_buffered_matching(ctx, push, proc):
@@ -275,6 +277,50 @@ def c_reentry_clean(ctx, push):
                   "`%s` re-enters push_chunk while `current_chunk` still holds the text that is being passed: the inner call appends it again, so the remainder of the token that completes "
                   "the prefix is delivered twice (or, ending with the suffix, held back and then wiped)" % first_line(r.ast, 50), line=r.line)
     ctx.stat("push_chunk_reentries", len(re_))
+
+
+def c_reentry_past_prefix(ctx, cls):
+    """push_chunk starts with the prefix gate: while `self.prefix` is set, the incoming text is only collected and compared with the prefix.  A call of push_chunk from inside the
+    handler's own processing (the remainder behind the prefix; the text in front of a stop sequence, from _process) is meant to be PROCESSED - it must not run into the gate again,
+    or the text is dropped: every such re-entry is preceded on every path by `self.prefix = None` (F171: _process is also reached from _finish with a prefix that never matched)."""
+    n = 0
+    for name in ("push_chunk", "_process"):
+        fn = _method(cls, name)
+        if fn is None:
+            raise AnalysisError("StreamingHandler.%s not found" % name, anchor=STREAM + "::StreamingHandler." + name)
+        cfg = CFG(fn)
+        re_ = [x for x in cfg.nodes if x.ast is not None and x.kind == "stmt" and any(isinstance(c, ast.Call) and src(c.func) == "self.push_chunk" for c in walk_no_nested(x.ast))]
+        clears = [x for x in cfg.nodes if x.kind == "stmt" and isinstance(x.ast, ast.Assign) and any(src(tg) == "self.prefix" for tg in x.ast.targets)
+                  and isinstance(x.ast.value, ast.Constant) and not x.ast.value.value]
+        for r in re_:
+            n += 1
+            ok = cfg.must_pass(cfg.entry, r, clears)
+            ctx.check("C18.c.reentry-past-prefix", STREAM, "StreamingHandler." + name, "re-entry `%s`" % first_line(r.ast, 50), ok,
+                      "the pending prefix is given up on every path before the handler re-enters push_chunk" if ok else
+                      "`%s` re-enters push_chunk while `self.prefix` can still be set: the inner call only collects the text and compares it with the prefix, so the text that was to be "
+                      "delivered is dropped (an LLM answer that does not start with the expected prefix but contains the stop sequence yields an EMPTY message, for every chunking)" % first_line(r.ast, 50),
+                      line=r.line)
+    ctx.floor("C18.c.reentry-past-prefix", STREAM, "re-entries of push_chunk from push_chunk / _process", n, 2)
+
+
+def a_unbuffer_nonempty(ctx, cls):
+    """An empty chunk is the end-of-stream marker of the handler.  disable_buffering pushes the buffer as a chunk: with an EMPTY buffer (called before the first token arrived)
+    that would end the stream and every later token would be dropped - whether text is delivered would depend on when the first token arrives (F172)."""
+    fn = _method(cls, "disable_buffering")
+    if fn is None:
+        raise AnalysisError("StreamingHandler.disable_buffering not found", anchor=STREAM + "::StreamingHandler.disable_buffering")
+    cfg = CFG(fn)
+    pushes = [x for x in cfg.nodes if x.ast is not None and x.kind == "stmt" and any(isinstance(c, ast.Call) and src(c.func) == "self.push_chunk" and c.args and src(c.args[0]) == "self.buffer"
+                                                                                     for c in walk_no_nested(x.ast))]
+    ctx.floor("C18.a.unbuffer-nonempty", STREAM, "pushes of the buffer in disable_buffering", len(pushes), 1)
+    from ..source import truth
+    for r in pushes:
+        reach = cfg.reachable_under([cfg.entry], {"self.buffer": False, "self.buffer == ''": True, "len(self.buffer) > 0": False, "len(self.buffer) == 0": True})
+        ok = r not in reach
+        ctx.check("C18.a.unbuffer-nonempty", STREAM, "StreamingHandler.disable_buffering", "the buffer is pushed only when it holds text", ok,
+                  "an empty buffer is not pushed (it would be read as the end of the stream)" if ok else
+                  "`%s` is executed also when the buffer is empty: an empty chunk is the end-of-stream marker, so when buffering is switched off before the first token has arrived the "
+                  "stream is finished and every later token is dropped" % first_line(r.ast, 50), line=r.line)
 
 
 def a_buffer_remainder_raw(ctx, cls):
